@@ -43,29 +43,79 @@ class ScalarKey(tuple):
     __slots__ = ()
 
 
+def key_component(d):
+    """One component of a composite key: a scalar, or a field-less enum value (compared by its variant)."""
+    d = deref(d)
+    if isinstance(d, Agg) and d.variant is not None and not d.fields:
+        return ("enum", d.kind, d.variant)
+    if isinstance(d, bool):
+        return d
+    if isinstance(d, int) or is_sym(d):
+        return d
+    if isinstance(d, (Str, SString)):
+        return ("str", tuple(d.elems))
+    raise Unsupported("map key component %r" % (d,))
+
+
 def map_key(v):
-    """Key of the finite-map model: the code points of a string-like value, or the scalar itself."""
+    """Key of the finite-map model: the code points of a string-like value, the scalar itself, or a tuple of scalars / plain enum values."""
     d = deref(v)
+    if isinstance(d, Agg) and d.kind == "tuple":
+        k = ScalarKey(tuple(key_component(x) for x in d.fields))
+        KEY_SOURCES[id(k)] = d
+        return k
+    if isinstance(d, Agg) and d.variant is not None and not d.fields:
+        return ScalarKey((key_component(d),))
     if isinstance(d, bool) or (not isinstance(d, int) and not is_sym(d)):
         return elems_of(v)
     return ScalarKey((d,))
 
 
-def key_eq(a, b):
-    if isinstance(a, ScalarKey) or isinstance(b, ScalarKey):
-        if not (isinstance(a, ScalarKey) and isinstance(b, ScalarKey)):
+KEY_SOURCES = {}
+
+
+def comp_eq(x, y):
+    if isinstance(x, tuple) or isinstance(y, tuple):
+        if not (isinstance(x, tuple) and isinstance(y, tuple)) or x[0] != y[0]:
             return False
-        x, y = a[0], b[0]
+        if x[0] == "str":
+            return str_eq(x[1], y[1])
+        return x == y
+    if isinstance(x, bool) or isinstance(y, bool):
         if not is_sym(x) and not is_sym(y):
             return x == y
-        w = x.size() if is_sym(x) else y.size()
-        return simp(bv(x, w) == bv(y, w))
+        return simp(to_bool(x) == to_bool(y))
+    if not is_sym(x) and not is_sym(y):
+        return x == y
+    w = x.size() if is_sym(x) else y.size()
+    return simp(bv(x, w) == bv(y, w))
+
+
+def key_eq(a, b):
+    if isinstance(a, ScalarKey) or isinstance(b, ScalarKey):
+        if not (isinstance(a, ScalarKey) and isinstance(b, ScalarKey)) or len(a) != len(b):
+            return False
+        conds = []
+        for x, y in zip(a, b):
+            e = comp_eq(x, y)
+            if e is False:
+                return False
+            if e is not True:
+                conds.append(e)
+        return simp(z3.And(conds)) if conds else True
     return str_eq(a, b)
 
 
 def key_value(k):
     """The key as a Rust value again (for iteration)."""
-    return k[0] if isinstance(k, ScalarKey) else SString(list(k))
+    if isinstance(k, ScalarKey):
+        src = KEY_SOURCES.get(id(k))
+        if src is not None:
+            return src
+        if len(k) == 1 and not isinstance(k[0], tuple):
+            return k[0]
+        raise Unsupported("iteration over a map with composite keys")
+    return SString(list(k))
 
 
 def str_eq(a, b):
@@ -508,7 +558,11 @@ def register_all(M):
         if isinstance(t, SVec):
             return Slice(t.items)
         if isinstance(t, Agg) and t.kind == "adt:Cow":
-            return Str(elems_of(t.fields[0]))
+            inner = deref(t.fields[0])
+            if isinstance(inner, (Str, SString)):
+                return Str(inner.elems)
+            # Cow<T> of another type: a reference to the borrowed or the owned value
+            return t.fields[0] if isinstance(t.fields[0], Ref) else Ref(t.fields, 0)
         if isinstance(t, Opaque) and t.tag in ("PathBuf", "bytes"):
             return t
         if isinstance(t, Agg) and t.kind in ("adt:RefMut", "adt:CellRef"):
@@ -1233,12 +1287,33 @@ def register_all(M):
     @reg("Cow::deref", "Cow::as_ref", "Cow::borrow")
     def m_cow_deref(it, args, callee):
         inner = cow_inner(args[0])
-        return Str(list(inner.elems))
+        if isinstance(inner, (Str, SString)):
+            return Str(list(inner.elems))
+        c = deref(args[0])
+        return c.fields[0] if isinstance(c.fields[0], Ref) else Ref(c.fields, 0)
 
     @reg("Cow::to_string", "Cow::into_owned", "Cow::to_owned")
     def m_cow_to_string(it, args, callee):
         inner = cow_inner(args[0])
-        return SString(list(inner.elems))
+        if isinstance(inner, (Str, SString)):
+            return SString(list(inner.elems))
+        if callee.strip().endswith("to_owned"):
+            return deep_copy(deref(args[0]))
+        return clone_value(it, inner)        # into_owned of Cow<T>: the owned value, or a clone of the borrowed one
+
+    @reg("Cow::to_mut")
+    def m_cow_to_mut(it, args, callee):
+        c = deref(args[0])
+        if c.variant == 0:                   # Borrowed -> Owned(clone)
+            inner = deref(c.fields[0])
+            c.variant = 1
+            c.fields[0] = SString(list(inner.elems)) if isinstance(inner, (Str, SString)) else clone_value(it, inner)
+        return Ref(c.fields, 0, True)
+
+    @reg("Cow::is_borrowed", "Cow::is_owned")
+    def m_cow_is(it, args, callee):
+        c = deref(args[0])
+        return (c.variant == 0) == callee.strip().endswith("is_borrowed")
 
     @reg("Extend::extend")
     def m_extend(it, args, callee):
@@ -2247,6 +2322,52 @@ def register_all(M):
         return some(args[1]) if it.st.branch(deref(args[0])) else none()
 
     # ----------------------------------------------------------------- mem
+    def owns_heap(v, depth=0):
+        v = deref(v) if isinstance(v, Ref) else v
+        if isinstance(v, (SString, SVec, SMap, Box)):
+            return True
+        if isinstance(v, Opaque):
+            return v.tag in ("PathBuf", "OsString", "bytes", "File")
+        if isinstance(v, Agg) and depth < 4:
+            return any(owns_heap(x, depth + 1) for x in v.fields if not isinstance(x, Ref))
+        return False
+
+    @reg("mem::forget", "ManuallyDrop::new")
+    def m_forget(it, args, callee):
+        # the value's destructor never runs: whatever it owns on the heap stays allocated for good
+        if owns_heap(args[0]):
+            it.env.setdefault("forgotten", []).append(repr(deref(args[0]) if isinstance(args[0], Ref) else args[0])[:80])
+        return UNIT if "forget" in callee else args[0]
+
+    def path_of(v):
+        d = deref(v) if isinstance(v, Ref) else v
+        if isinstance(d, Opaque) and d.tag in ("PathBuf", "OsString"):
+            return tuple(d.payload or ())
+        return tuple(elems_of(v))
+
+    @reg("Path::as_os_str", "PathBuf::as_os_str", "PathBuf::as_path", "OsStr::to_owned", "OsStr::to_os_string", "Path::to_path_buf", "PathBuf::into_os_string",
+         "OsString::into_boxed_os_str", "Path::new", "PathBuf::from", "OsString::from", "OsStr::new", "Path::to_owned", "OsString::as_os_str")
+    def m_path_copy(it, args, callee):
+        return Opaque("PathBuf", path_of(args[0]))
+
+    @reg("OsString::push", "PathBuf::push")
+    def m_path_push(it, args, callee):
+        d = deref(args[0])
+        sep = (0x2f,) if "PathBuf" in callee else ()
+        d.payload = tuple(d.payload or ()) + sep + path_of(args[1])
+        return UNIT
+
+    @reg("Path::join", "Path::with_extension", "Path::with_file_name", "PathBuf::join")
+    def m_path_join(it, args, callee):
+        sep = (0x2e,) if "extension" in callee else (0x2f,)
+        return Opaque("PathBuf", path_of(args[0]) + sep + path_of(args[1]))
+
+    @reg("PathBuf::set_extension")
+    def m_path_set_ext(it, args, callee):
+        d = deref(args[0])
+        d.payload = tuple(d.payload or ()) + (0x2e,) + path_of(args[1])
+        return True
+
     @reg("mem::take")
     def m_mem_take(it, args, callee):
         r = args[0]
